@@ -253,6 +253,8 @@ def entries() -> list[Entry]:
             lambda rng: rng.choice(["hé", "€€", "z"]) + _text(rng, 0, 4) + rng.choice(["", "\n", "\n\n"]),
             buffered=True,
         ),
+        # a codec that reports malformed input with the base class UnicodeError (not UnicodeDecodeError)
+        Entry("StringLineSerializer(LF,encoding=punycode)", lambda: StringLineSerializer("LF", encoding="punycode"), lambda rng: _text(rng, 1, 8, string.ascii_lowercase + "éü"), buffered=True),
         Entry("StructSerializer(>iH3s)", lambda: StructSerializer(">iH3s"), gen_struct, buffered=True),
         Entry(
             "NamedTupleStructSerializer",
